@@ -305,6 +305,38 @@ Proof.
   intros T [d ds] H. destruct d; cbn in H; try discriminate; repeat split; reflexivity.
 Qed.
 
+(* the comparison / hash / Copy derives of a NEWTYPE come from the String test alone: whatever else the
+   inner entry is - in particular a Native, which is how replacement and conversion types of the settings
+   are represented, with whatever impls the settings list - none of them is built in *)
+Definition cmp_traits : list string := ["Copy"; "PartialOrd"; "Ord"; "PartialEq"; "Eq"; "Hash"].
+
+Lemma non_string_newtype_no_cmp :
+  forallb (fun c => forallb (fun x => negb (mem_ustr (u x) (builtin_for (KindNewtype false c)))) cmp_traits)
+          [KNone; KEnumValue; KDenyValue; KString] = true.
+Proof. vm_compute. reflexivity. Qed.
+
+Theorem comparison_derives_only_over_string : forall T n df inner c ds x,
+  get_det T inner <> Some DString -> In x cmp_traits ->
+  ~ In (u x) (builtin_derives T (mkEntry (DNewtype n df inner c) ds)).
+Proof.
+  intros T n df inner c ds x Hns Hx Hin. unfold builtin_derives in Hin. cbn [e_det kind_of] in Hin.
+  assert (Hs : is_str T inner = false).
+  { unfold is_str. destruct (get_det T inner) as [d|]; [|reflexivity].
+    destruct d; try reflexivity. exfalso. apply Hns. reflexivity. }
+  rewrite Hs in Hin. pose proof non_string_newtype_no_cmp as H. rewrite forallb_forall in H.
+  assert (Hc : In (ckind_of c) [KNone; KEnumValue; KDenyValue; KString]) by (destruct c; cbn; tauto).
+  specialize (H _ Hc). rewrite forallb_forall in H. specialize (H x Hx).
+  apply mem_ustr_In in Hin. rewrite Hin in H. discriminate.
+Qed.
+
+Theorem no_comparison_derives_over_settings_native : forall T n df inner c ds name impls params x,
+  get_det T inner = Some (DNative name impls params) -> In x cmp_traits ->
+  ~ In (u x) (builtin_derives T (mkEntry (DNewtype n df inner c) ds)).
+Proof.
+  intros T n df inner c ds name impls params x Hn. apply comparison_derives_only_over_string.
+  rewrite Hn. discriminate.
+Qed.
+
 (* ------------------------------------------------------------------ derivability *)
 Lemma all_simple_no_contents : forall vs, all_simple vs = true ->
   flat_map (fun v => match v_det v with
